@@ -12,6 +12,7 @@ case "$1" in
 setup)
 	mkdir -p bin /verif/evidence
 	build
+	go build -race -tags verif -o bin/qmc-race . >bin.build.log 2>&1 || { cat bin.build.log >&2; echo "RACE BUILD FAILED" >&2; exit 2; }
 	./bin/qmc selftest || exit 2
 	;;
 baseline-off)
@@ -24,6 +25,9 @@ replay)
 *)
 	mkdir -p bin /verif/evidence
 	build
+	if [ "$1" = "C20" ]; then
+		go build -race -tags verif -o bin/qmc-race . >bin.build.log 2>&1 || { cat bin.build.log >&2; echo "RACE BUILD FAILED" >&2; exit 2; }
+	fi
 	exec ./bin/qmc check "$1" --tier "${2:-quick}"
 	;;
 esac
